@@ -121,16 +121,20 @@ def _root_events(k):
         return [SequenceStartEvent(None, None, True), SequenceEndEvent()]
     if k == 6:
         return [MappingStartEvent(None, None, True), S('k'), S(''), MappingEndEvent()]
+    if k == 8:
+        return [S('a', 'tag:e,2000:foo', (False, False))]        # a tag under the prefix some documents declare with %TAG
+    if k == 9:
+        return [SequenceStartEvent(None, 'tag:e,2000:seq', False), S('b', 'tag:e,2000:foo', (False, False)), SequenceEndEvent()]
     return [S('---', None, (True, True))]
 
 
-def emit_parse(n: int, r0: int, r1: int, r2: int, e0: bool, e1: bool, e2: bool, x0: bool, x1: bool, x2: bool, ver1: bool, tg1: bool) -> str:
-    """event level: per-document explicit flags, directives on the second document"""
+def emit_parse(n: int, r0: int, r1: int, r2: int, e0: bool, e1: bool, e2: bool, x0: bool, x1: bool, x2: bool, ver1: bool, tg1: bool, tg0: bool = False) -> str:
+    """event level: per-document explicit flags, %YAML on the second document, %TAG on the first and / or the second, roots with tags under that prefix"""
     rs, es, xs = [r0, r1, r2][:n], [e0, e1, e2], [x0, x1, x2]
     events = [StreamStartEvent()]
     for i, k in enumerate(rs):
         dv = (1, 1) if (ver1 and i == 1) else None
-        dt = {'!e!': 'tag:e,2000:'} if (tg1 and i == 1) else None
+        dt = {'!e!': 'tag:e,2000:'} if ((tg1 and i == 1) or (tg0 and i == 0)) else None
         events.append(DocumentStartEvent(explicit=es[i], version=dv, tags=dt))
         events += _root_events(k)
         events.append(DocumentEndEvent(explicit=xs[i]))
@@ -155,6 +159,8 @@ def emit_parse(n: int, r0: int, r1: int, r2: int, e0: bool, e1: bool, e2: bool, 
             return fail(P, 'EVENTS differ in kind', n=n, r0=r0, r1=r1)
         if isinstance(a, ScalarEvent) and a.value != b.value:
             return fail(P, 'EVENTS scalar content differs', n=n, r0=r0, r1=r1)
+        if isinstance(a, (ScalarEvent, SequenceStartEvent)) and a.tag is not None and a.tag.startswith('tag:e,') and a.tag != b.tag:
+            return fail(P, 'EVENTS tag differs', n=n, r0=r0, r1=r1)
         if isinstance(a, DocumentStartEvent) and (a.version != b.version and a.version is not None or (a.tags or None) != (b.tags or None)):
             return fail(P, 'EVENTS directives differ', n=n, r0=r0, r1=r1)
     return 'ok'
@@ -185,9 +191,9 @@ def jobs(tier):
         js.append(Job('serialize/first=%d' % r, serialize_compose,
                       [lambda n, r0, r1, r2, estart, eend, ver, _r=r: r0 == _r and 1 <= n <= (2 if q else 3) and 0 <= r1 <= 7 and 0 <= r2 <= (0 if q else 7)],
                       budget=200 if q else 1500, bounds='node graphs: first root kind %d, following roots of 8 kinds, explicit flags, version' % r))
-    for r in range(8):
+    for r in range(10):
         js.append(Job('emit/first=%d' % r, emit_parse,
-                      [lambda n, r0, r1, r2, e0, e1, e2, x0, x1, x2, ver1, tg1, _r=r:
-                       r0 == _r and 1 <= n <= (2 if q else 3) and 0 <= r1 <= 7 and 0 <= r2 <= (0 if q else 7) and (not e2 and not x2 if q else True)],
-                      budget=200 if q else 1500, bounds='event streams: first root kind %d, following roots of 8 kinds, explicit start/end flag per document, directives on the second' % r))
+                      [lambda n, r0, r1, r2, e0, e1, e2, x0, x1, x2, ver1, tg1, tg0, _r=r:
+                       r0 == _r and 1 <= n <= (2 if q else 3) and 0 <= r1 <= 9 and 0 <= r2 <= (0 if q else 9) and (not e2 and not x2 if q else True)],
+                      budget=200 if q else 1500, bounds='event streams: first root kind %d, following roots of 10 kinds (two with tags under a %%TAG prefix), explicit start/end flag per document, %%YAML on the second, %%TAG on the first and / or the second' % r))
     return js
